@@ -14,10 +14,23 @@
                          (otherwise finding C17-F4 / C17-F2)
   The full statements (without hypotheses) are false for the code as it is: see the
   `finding_C17_F*` theorems at the end.
+
+  Second part ("what the Python computes", "no mass lost", unambiguous grammars):
+    * `probability` (the transcription of `ProbDetGrammar.probability`: membership test, then the
+      `reduce_derivations` fold) is the specification `prob` — by C04 (`probabilityDet_eq_prob`,
+      the lemma behind `C04_prob_det`); the mass theorems are restated on it (`…_impl_…`).
+    * `lang G k nt` is C04's enumeration of the programs of at most `k` levels (`C04_lang`).
+    * `instUG` / `instUTg` (PS/Proofs/InstConstU.lean) are `UCFG.instantiate_constants` /
+      `ProbUGrammar.instantiate_constants` on the grammar objects of C04 (`PS.U.UCFG`,
+      `PS.U.UTags`): rule table `instU`, tags `instUTags`, start symbols and start tags unchanged.
+      `PS.U.genU` / `PS.U.allDerivs` / `PS.U.probU` are C04's specification (stack-free
+      derivations), `PS.U.contains` / `PS.U.probabilityU` the transcriptions of the code.
 -/
 import PS.Proofs.InstConst
 import PS.Proofs.InstConstProg
 import PS.Proofs.InstConstMass
+import PS.Proofs.InstConstLink
+import PS.Proofs.InstConstU
 namespace PS.IC
 open PS PS.G
 
@@ -160,6 +173,197 @@ example : allInst tbl t = some [.node plus [leaf (c "i:5"), leaf v0], t'] := by 
 example : prob G tags t G.start = 3/32 ∧ prob (inst G tbl) (instTags tags tbl) t' G.start = 3/64 := by
   decide +kernel
 example : normalisedB tags = true ∧ normalisedB (instTags tags tbl) = true := by decide +kernel
+
+/-! ### the model of `probability`, total mass, unambiguous grammars -/
+
+/-- **The model of `ProbDetGrammar.probability` is the specification** `prob` (product of the
+    rule weights along the derivation, 0 outside the language): for every grammar, every tag
+    table (incomplete or unnormalised too) and every program.  No hypothesis.  (C04.) -/
+theorem C17_prob_impl (G : TT S Unit) (tags : Tags S Unit) (t : Prog) :
+    probability G tags t = prob G tags t G.start :=
+  probability_eq_prob G tags t
+
+example : probability G tags t = 3/32 ∧ probability (inst G tbl) (instTags tags tbl) t' = 3/64 ∧
+    probability (inst G tbl) (instTags tags tbl) t = 0 := by decide +kernel
+
+/-- **Mass, on what the code computes.** The values `probability` returns for the
+    instantiations of a template of the grammar sum to the value it returns for the template. -/
+theorem C17_mass_impl_partial (G : TT S Unit) (tags : Tags S Unit) (tbl : Tbl)
+    (hG : rulesOK tbl G.rules = true) (hT : rulesOK tbl tags = true)
+    (hne : rulesNonEmpty tbl G.rules = true)
+    (t : Prog) (l : List Prog) (hg : contains G t = true) (hl : allInst tbl t = some l) :
+    rsum (l.map (probability (inst G tbl) (instTags tags tbl))) = probability G tags t := by
+  rw [contains_eq_gen] at hg
+  rw [C17_prob_impl, ← C17_mass_partial G tags tbl hG hT hne t G.start l hg hl]
+  exact rsum_map_congr (fun t' _ => C17_prob_impl (inst G tbl) (instTags tags tbl) t')
+
+example : rsum ([.node plus [leaf (c "i:5"), leaf v0], t'].map
+    (probability (inst G tbl) (instTags tags tbl))) = probability G tags t :=
+  C17_mass_impl_partial G tags tbl (by decide +kernel) (by decide +kernel) (by decide +kernel) t _
+    (by decide +kernel) (by decide +kernel)
+
+/-- **The enumerated language.** The programs of at most `k` levels of the instantiated grammar
+    (C04's duplicate-free enumeration `lang`) are exactly the instantiations of the programs of
+    at most `k` levels of the template grammar. -/
+theorem C17_lang_enum_partial (G : TT S Unit) (tbl : Tbl) (h : rulesOK tbl G.rules = true)
+    (k : Nat) (nt : NT S Unit) :
+    (lang (inst G tbl) k nt).Nodup ∧
+    ∀ t', t' ∈ lang (inst G tbl) k nt ↔ ∃ t ∈ lang G k nt, isInst tbl t t' = true :=
+  ⟨lang_nodup _ (rowsNodup_inst h) k nt, mem_lang_inst tbl G h k nt⟩
+
+example : (lang G 2 G.start).length = 5 ∧ (lang (inst G tbl) 2 G.start).length = 10 ∧
+    t ∈ lang G 2 G.start ∧ t' ∈ lang (inst G tbl) 2 G.start := by decide +kernel
+
+/-- **No probability mass is lost** (specification, every non-terminal, every depth budget):
+    the probabilities of all programs of at most `k` levels of the instantiated grammar sum to
+    the same value as those of the template grammar. -/
+theorem C17_total_spec_partial (G : TT S Unit) (tags : Tags S Unit) (tbl : Tbl)
+    (hG : rulesOK tbl G.rules = true) (hT : rulesOK tbl tags = true)
+    (hne : rulesNonEmpty tbl G.rules = true) (k : Nat) (nt : NT S Unit) :
+    ((lang (inst G tbl) k nt).map fun t' => prob (inst G tbl) (instTags tags tbl) t' nt).sum =
+      ((lang G k nt).map fun t => prob G tags t nt).sum := by
+  have h := mass_inst tbl G tags hG hT hne k nt
+  unfold PS.G.mass at h
+  simp only [prob_eq_spec]
+  exact h
+
+/-- **No probability mass is lost** (what the code computes): the values of `probability` over
+    the programs of the instantiated grammar sum to the same value as over the template grammar. -/
+theorem C17_total_partial (G : TT S Unit) (tags : Tags S Unit) (tbl : Tbl)
+    (hG : rulesOK tbl G.rules = true) (hT : rulesOK tbl tags = true)
+    (hne : rulesNonEmpty tbl G.rules = true) (k : Nat) :
+    ((lang (inst G tbl) k G.start).map (probability (inst G tbl) (instTags tags tbl))).sum =
+      ((lang G k G.start).map (probability G tags)).sum := by
+  have h := C17_total_spec_partial G tags tbl hG hT hne k G.start
+  rw [show probability (inst G tbl) (instTags tags tbl) =
+      fun t' => prob (inst G tbl) (instTags tags tbl) t' G.start from
+        funext (fun t' => C17_prob_impl (inst G tbl) (instTags tags tbl) t'),
+    show probability G tags = fun t => prob G tags t G.start from
+      funext (fun t => C17_prob_impl G tags t)]
+  exact h
+
+/-- … hence **a distribution stays a distribution**: over a finite normalised grammar (C04's
+    `Normalised`: the weights of the rules of every non-terminal sum to 1) the values of
+    `probability` over the instantiated language sum to 1. -/
+theorem C17_total_one_partial (G : TT S Unit) (tags : Tags S Unit) (tbl : Tbl)
+    (hG : rulesOK tbl G.rules = true) (hT : rulesOK tbl tags = true)
+    (hne : rulesNonEmpty tbl G.rules = true) (hk : (AList.keys G.rules).Nodup)
+    (hn : PS.G.Normalised G tags) (k : Nat) (hb : bounded G k G.start = true) :
+    ((lang (inst G tbl) k G.start).map (probability (inst G tbl) (instTags tags tbl))).sum = 1 := by
+  rw [C17_total_partial G tags tbl hG hT hne k]
+  have h := mass_eq_one G tags hk hn k G.start hb
+  unfold PS.G.mass at h
+  rw [show probability G tags = fun t => PS.G.prob G tags t G.start from
+    funext (fun t => by rw [C17_prob_impl, prob_eq_spec])]
+  exact h
+
+theorem ex_normalised : PS.G.Normalised G tags ∧ (AList.keys G.rules).Nodup ∧
+    bounded G 2 G.start = true := by
+  refine ⟨?_, by decide, by decide⟩
+  intro e he
+  simp only [G, List.mem_cons, List.not_mem_nil, or_false] at he
+  rcases he with rfl | rfl <;> exact ⟨by decide +kernel, by decide⟩
+
+/-- the hypotheses of `C17_total_one_partial` hold on the example: the 10 programs of the
+    instantiated grammar have total probability 1 -/
+example : ((lang (inst G tbl) 2 G.start).map (probability (inst G tbl) (instTags tags tbl))).sum = 1 :=
+  C17_total_one_partial G tags tbl (by decide +kernel) (by decide +kernel) (by decide +kernel)
+    ex_normalised.2.1 ex_normalised.1 2 ex_normalised.2.2
+
+/-! #### unambiguous grammars (UCFG / ProbUGrammar) at language level -/
+
+variable {V : Type} [DecidableEq V]
+
+/-- **Language** of the instantiated unambiguous grammar = the instantiations of the programs of
+    the template grammar (specification `genU`: existence of a derivation from a start symbol). -/
+theorem C17_lang_u_partial (G : U.UCFG V) (tbl : Tbl) (h : rulesOK tbl G.rules = true) (t' : Prog) :
+    U.genU (instUG G tbl) t' = true ↔ ∃ t, U.genU G t = true ∧ isInst tbl t t' = true :=
+  genU_inst_iff tbl G h t'
+
+/-- the same for the implementation's membership test (`UGrammar.__contains__`, possibility
+    lists over the pending stack) -/
+theorem C17_lang_u_contains_partial (G : U.UCFG V) (tbl : Tbl) (h : rulesOK tbl G.rules = true)
+    (t' : Prog) :
+    U.contains (instUG G tbl) t' = true ↔ ∃ t, U.contains G t = true ∧ isInst tbl t t' = true := by
+  rw [U.contains_eq_genU]
+  simp only [U.contains_eq_genU]
+  exact C17_lang_u_partial G tbl h t'
+
+/-- **each instantiation comes from exactly one template** -/
+theorem C17_lang_u_unique_partial (G : U.UCFG V) (tbl : Tbl) (h : rulesOK tbl G.rules = true)
+    (t1 t2 t' : Prog) (g1 : U.genU G t1 = true) (g2 : U.genU G t2 = true)
+    (i1 : isInst tbl t1 t' = true) (i2 : isInst tbl t2 t' = true) : t1 = t2 := by
+  rw [← templ_of_isInst' tbl t1 t' (templ_fix_of_genU tbl G h t1 g1) i1,
+    ← templ_of_isInst' tbl t2 t' (templ_fix_of_genU tbl G h t2 g2) i2]
+
+/-- **derivations correspond one to one**: the derivations of an instantiation `t'` in the
+    instantiated grammar are, in the same order and from the same start symbols, the derivations
+    of its template `t` (symbols renamed back by `templSym`) — so **unambiguity is preserved**. -/
+theorem C17_derivs_u_partial (G : U.UCFG V) (tbl : Tbl) (h : rulesOK tbl G.rules = true)
+    (t t' : Prog) (hg : U.genU G t = true) (hi : isInst tbl t t' = true) :
+    (U.allDerivs (instUG G tbl) t').map (fun sd => (sd.1, sd.2.map (derTempl tbl))) = U.allDerivs G t ∧
+    U.unambiguousOn (instUG G tbl) t' = U.unambiguousOn G t :=
+  ⟨allDerivs_inst tbl G h t t' (templ_fix_of_genU tbl G h t hg) hi,
+   unambiguousOn_inst tbl G h t t' hg hi⟩
+
+/-- **Mass** (specification `probU`: start weight × product of the rule weights of the unique
+    derivation): the instantiations of an unambiguous template share its probability. -/
+theorem C17_mass_u_partial (G : U.UCFG V) (tg : U.UTags V) (tbl : Tbl)
+    (hG : rulesOK tbl G.rules = true) (hT : rulesOK tbl tg.tags = true)
+    (hne : rulesNonEmpty tbl G.rules = true) (t : Prog) (l : List Prog)
+    (hg : U.genU G t = true) (hu : U.unambiguousOn G t = true) (hl : allInst tbl t = some l) :
+    rsum (l.map (U.probU (instUG G tbl) (instUTg tg tbl))) = U.probU G tg t :=
+  probU_mass tbl G tg hG hT hne t l hg hu hl
+
+/-- **Mass, on what the code computes** (`ProbUGrammar.probability`: the `reduce_derivations`
+    fold over the first alternative, without the start factor — finding C04-F1 — so no
+    hypothesis on the start weights is needed here). -/
+theorem C17_mass_u_impl_partial (G : U.UCFG V) (tg : U.UTags V) (tbl : Tbl)
+    (hG : rulesOK tbl G.rules = true) (hT : rulesOK tbl tg.tags = true)
+    (hne : rulesNonEmpty tbl G.rules = true) (t : Prog) (l : List Prog)
+    (hg : U.contains G t = true) (hu : U.unambiguousOn G t = true) (hl : allInst tbl t = some l) :
+    rsum (l.map (U.probabilityU (instUG G tbl) (instUTg tg tbl))) = U.probabilityU G tg t := by
+  rw [U.contains_eq_genU] at hg
+  exact probabilityU_mass tbl G tg hG hT hne t l hg hu hl
+
+/-- **No mass is lost** (unambiguous grammars): the total weight of the derivations of at most
+    `k` levels from every non-terminal is unchanged (C04's `massU`; = 1 for a finite normalised
+    grammar by `C04_spec_u_total`). -/
+theorem C17_total_u_partial (G : U.UCFG V) (tg : U.UTags V) (tbl : Tbl)
+    (hG : rulesOK tbl G.rules = true) (hT : rulesOK tbl tg.tags = true)
+    (hne : rulesNonEmpty tbl G.rules = true) (k : Nat) (nt : U.UNT V) :
+    U.Mass.massU (instUG G tbl) (instUTg tg tbl) k nt = U.Mass.massU G tg k nt :=
+  massU_inst tbl G tg hG hT hne k nt
+
+/-! non-vacuity: `q0 → (+ q1 q1) | (+ q2 q1) | 1`, `q1 → <int> | var0`, `q2 → 1` (two alternatives
+    for `+`; the template `(+ <int> var0)` has one derivation) -/
+namespace ExU
+def q0 : U.UNT Nat := (int, 0)
+def q1 : U.UNT Nat := (int, 1)
+def q2 : U.UNT Nat := (int, 2)
+def GU : U.UCFG Nat :=
+  ⟨[q0], [(q0, [(plus, [[q1, q1], [q2, q1]]), (one, [[]])]), (q1, [(slot, [[]]), (v0, [[]])]),
+          (q2, [(one, [[]])])], q0⟩
+def tgU : U.UTags Nat :=
+  ⟨[(q0, [(plus, [([q1, q1], 1/4), ([q2, q1], 1/4)]), (one, [([], 1/2)])]),
+    (q1, [(slot, [([], 3/4)]), (v0, [([], 1/4)])]), (q2, [(one, [([], 1)])])], [(q0, 1)]⟩
+end ExU
+open ExU
+
+example : rulesOK tbl GU.rules = true ∧ rulesOK tbl tgU.tags = true ∧
+    rulesNonEmpty tbl GU.rules = true ∧ U.contains GU t = true ∧ U.genU GU t = true ∧
+    U.unambiguousOn GU t = true := by decide +kernel
+example : U.genU (instUG GU tbl) t' = true ∧ U.genU (instUG GU tbl) t = false ∧
+    U.unambiguousOn (instUG GU tbl) t' = true ∧ (U.allDerivs (instUG GU tbl) t').length = 1 := by
+  decide +kernel
+example : U.probabilityU GU tgU t = 3/64 ∧ U.probU GU tgU t = 3/64 ∧
+    U.probabilityU (instUG GU tbl) (instUTg tgU tbl) t' = 3/128 := by decide +kernel
+example : rsum ([.node plus [leaf (c "i:5"), leaf v0], t'].map
+    (U.probabilityU (instUG GU tbl) (instUTg tgU tbl))) = U.probabilityU GU tgU t :=
+  C17_mass_u_impl_partial GU tgU tbl (by decide +kernel) (by decide +kernel) (by decide +kernel) t _
+    (by decide +kernel) (by decide +kernel) (by decide +kernel)
+example : U.Mass.massU (instUG GU tbl) (instUTg tgU tbl) 2 q0 = 1 ∧ U.Mass.massU GU tgU 2 q0 = 1 := by
+  decide +kernel
 
 /-! ### findings: the statements without the hypotheses are false for the code as it is -/
 
